@@ -7,6 +7,7 @@ import (
 	"sort"
 	"strconv"
 	"strings"
+	"time"
 	"unicode/utf8"
 
 	apierrors "k8s.io/apimachinery/pkg/api/errors"
@@ -61,16 +62,21 @@ func clusterObj(u string) *proxyv1alpha1.UpstreamCluster {
 }
 
 func newEnv(me string, n int, storeType string, lister []string) (*env, error) {
+	return newEnvWith(me, n, storeType, lister, gatewayfake.NewSimpleClientset(), 0)
+}
+
+// newEnvWith: the same with a given gateway clientset (the API the k8s store writes to) and k8s store sync period.
+func newEnvWith(me string, n int, storeType string, lister []string, gc *gatewayfake.Clientset, period time.Duration) (*env, error) {
 	indexer := cache.NewIndexer(cache.MetaNamespaceKeyFunc, cache.Indexers{})
 	for _, u := range lister {
 		indexer.Add(clusterObj(u))
 	}
 	opts := options.RateLimitOptions{
-		ShardingCount: n, LimitStore: storeType, Identity: me,
+		ShardingCount: n, LimitStore: storeType, Identity: me, K8sStoreSyncPeriod: period,
 		LeaderElectionConfiguration: componentbaseconfig.LeaderElectionConfiguration{
 			ResourceLock: "leases", ResourceNamespace: "kube-gateway", ResourceName: "verif"},
 	}
-	rl, err := limiter.VerifC13NewRateLimiter(gatewayfake.NewSimpleClientset(), kubefake.NewSimpleClientset(), opts, &stubController{indexer})
+	rl, err := limiter.VerifC13NewRateLimiter(gc, kubefake.NewSimpleClientset(), opts, &stubController{indexer})
 	if err != nil {
 		return nil, err
 	}
